@@ -234,9 +234,20 @@ class SymBool:
     def __invert__(s):
         return SymBool(z3.Not(s.b))
 
+    def __eq__(s, o):
+        return SymBool(s.b == _lb(o))
+
+    def __ne__(s, o):
+        return SymBool(s.b != _lb(o))
+
+    __hash__ = None
+
 
 def _lb(o):
     return o.b if isinstance(o, SymBool) else z3.BoolVal(bool(o))
+
+
+_SENT = object()
 
 
 class _Defer(Exception):
@@ -419,6 +430,10 @@ class Sym:
         return s._reduce(p)
 
     def _rel(s, o, op):
+        if o is None or isinstance(o, (str, tuple, list)):
+            raise _Defer()
+        if isinstance(o, float) and o in (float("inf"), float("-inf")):
+            return bool(op(0.0, o))
         d = s - s._co(o)
         return SymBool(op(s.c.poly_z3(d._signpoly()), 0))
 
